@@ -61,6 +61,7 @@ def obligations(ctx):
     struct_forms(ctx)
     output_forms(ctx)
     param_update_keys(ctx)
+    text_size_bounds(ctx)
 
 
 # ---------------------------------------------------------------- struct-level forms against a table written from the Conway CDDL
@@ -356,4 +357,64 @@ def param_update_keys(ctx):
     if ncombo < 60:
         ob.fail("only %d of %d presence combinations could be executed" % (ncombo, len(combos)))
     ob.cross_every = 10
+    ob.finish(agg)
+
+
+# ---------------------------------------------------------------- validating constructors of text leaves: the CDDL bound is in BYTES
+TEXT_BOUNDS = {          # constructor -> (CDDL rule, byte bound)
+    "TransactionMetadatum::new_text": ("transaction_metadatum text = text .size (0 .. 64)", 64),
+    "URL::new": ("url = text .size (0 .. 128)", 128),
+    "DNSRecordAorAAAA::new": ("dns_name = text .size (0 .. 128)", 128),
+    "DNSRecordSRV::new": ("dns_name = text .size (0 .. 128)", 128),
+}
+
+
+def text_size_bounds(ctx):
+    """text .size (0 .. n) bounds the UTF-8 BYTE length.  Each constructor is executed on an arbitrary string under the string
+    theory (byte length, character count with  chars <= bytes <= 4 * chars): it accepts exactly the strings of at most n bytes."""
+    import strmodel
+    P = ctx.P
+    ob = Obligation(ctx, "c03_e2_text_constructors_bound_bytes", "arbitrary strings: byte length and character count symbolic (chars <= bytes <= 4 chars)", sorted(TEXT_BOUNDS), fallback_native="e2n_c03_struct_forms")
+    agg = Engine(P)
+    for fn, (rule, bound) in sorted(TEXT_BOUNDS.items()):
+        E = Engine(P, max_loop=4)
+        E.havoc_external = r"^(std::fmt::|alloc::fmt::format|core::fmt::|<.* as ToString>::to_string|<.* as std::string::ToString>::to_string)"
+        strmodel.install(E)
+        slen = z3.Function("str_len", E.U, z3.IntSort())
+        nchars = z3.Function("str_chars", E.U, z3.IntSort())
+        def ident(v):
+            v = VM.deref(E, v)
+            if isinstance(v, VStruct) and v.name == "String" and v.fields:
+                v = v.fields[0]
+            return E.as_u(v)
+        def chars(E_, c, a):
+            return VOpaque("chars", [], ident(a[0]))
+        def count(E_, c, a):
+            it = VM.deref(E_, a[0])
+            if not (isinstance(it, VOpaque) and it.tag == "chars"):
+                return NotImplemented
+            n, k = slen(it.t), nchars(it.t)
+            E_.pc.append(z3.And(k >= 0, k <= n, n <= 4 * k))
+            return VInt(k, "usize")
+        E.extra_intrinsics[r"(^|::)<impl str>::chars$"] = chars
+        E.extra_intrinsics[r"Chars<'_> as (std::iter::)?Iterator>::count$|Chars<.*> as (std::iter::)?Iterator>::count$"] = count
+        arg = VLazy("text", "String")
+        try:
+            outs = list(E.explore(fn, lambda: [clone(arg)], max_paths=40))
+        except (Unsupported, PathAbort) as e:
+            ob.fail("%s cannot be executed (%s)" % (fn, str(e)[:140])); continue
+        u = E.as_u(arg)
+        seen = set()
+        for o in outs:
+            if o.kind != "return":
+                ob.vc("%s returns (no panic: %s)" % (fn, o.msg[:60]), o.pc, z3.BoolVal(False)); continue
+            seen.add(o.value.variant)
+            n = slen(u)
+            if o.value.variant == "Ok":
+                ob.vc("%s accepts only strings of at most %d BYTES (%s)" % (fn, bound, rule), list(o.pc) + [n >= 0], n <= bound, info=dict(fn=fn))
+            else:
+                ob.vc("%s refuses only strings longer than %d bytes" % (fn, bound), list(o.pc) + [n >= 0], n > bound, info=dict(fn=fn))
+        if seen != {"Ok", "Err"}:
+            ob.fail("%s: expected accepting and refusing paths, saw %s" % (fn, sorted(seen)))
+        agg.stats["paths"] += E.stats["paths"]; agg.stats["functions"] |= E.stats["functions"]
     ob.finish(agg)
